@@ -453,6 +453,9 @@ where
                 }
             }
             m1 = m;
+            // the separator is an all-zero row by definition: a non-zero out is a deviation
+            // whatever the chain then computes
+            expect_reject = Some(true);
         }
         cell if cell == "bsq" || cell.starts_with("int") => {
             let Some((f, k)) = unit.filter(|&(f, k)| k >= 2 && f == mu.op) else { return out("not_applicable", cover) };
@@ -567,6 +570,15 @@ fn w<F: BinomiallyExtendable<D>, const D: usize>() -> AluExtMulKind<F> {
 
 pub fn run_case(case: &Case, rng: &mut StdRng) -> Outcome {
     use AluExtMulKind::{Base, QuinticTrinomial};
+    // the TLA+ case generator writes `"cell":"none"` for the honest trace
+    let mut owned;
+    let case = if case.mutate.as_ref().is_some_and(|m| m.cell == "none") {
+        owned = case.clone();
+        owned.mutate = None;
+        &owned
+    } else {
+        case
+    };
     type Bb = BabyBear;
     type Kb = KoalaBear;
     type Gl = Goldilocks;
